@@ -9,7 +9,7 @@ import json, os, subprocess, sys
 sys.path.insert(0, os.path.dirname(os.path.dirname(os.path.abspath(__file__))))
 import vlib
 
-ALL_TOGGLES = ["f1", "f3", "f14"]   # f2, f16 are fixed in /repo: part of the as-is model now
+ALL_TOGGLES = ["f3"]   # f1p f1q f1r f14 (F1, F14), f2, f16, f33 are fixed in /repo: part of the as-is model now
 
 
 def split_cases(ops):
@@ -35,7 +35,7 @@ def run_shard(binpath, mode, seed, tier, n, outdir, replay=None, toggles_sets=()
     if p.returncode != 0:
         return {"error": f"harness exited {p.returncode}: {p.stdout[-2000:]}"}
     outs = {}
-    for name, args in [("asis", []), ("desc", ["desc"])] + [(" ".join(t), list(t)) for t in toggles_sets] + ([("core", ["core"])] if core else []):
+    for name, args in [("asis", []), ("desc", ["desc"])] + [(" ".join(t), list(t)) for t in toggles_sets] + ([("core", ["core", "corefull"])] if core else []):
         path = os.path.join(outdir, "model_" + name.replace(" ", "_") + ".txt")
         rc, err = vlib.run_driver("drv_engine", os.path.join(outdir, "ops.txt"), path, args)
         if rc != 0:
@@ -161,7 +161,9 @@ def analyse(sh, single_toggles):
             if cidx and len(cidx) == len(idx): res["core_cases"] += 1
             res["core_lines"] += len(cidx)
             for i in cidx:
-                if core[i] != impl[i]:
+                # order-sensitive cases (>= 2-element firewall/projection sets, unordered groups): values only
+                same = (vals(core[i]) == vals(impl[i])) if order_sensitive else (strip(core[i]) == impl[i])
+                if not same:
                     res["core_disagree"].append({"case": text, "op": ops[i], "impl": impl[i], "model": core[i]}); break
     return res
 
